@@ -8,6 +8,7 @@ post-processing selected by ``case_sensitive``; the slicing arithmetic of ``slic
 fill rule of ``batch`` as linear forms; empty-input behaviour (min/max/first/last return
 undefined; sum starts from ``start``); unique keeps first occurrences (seen-set protocol).
 Also: the attribute default is applied at every segment of a dotted path.  
+Also: make_multi_attrgetter post-processes every component; prepare_map takes the attribute form only without a filter name.  
 Not decided: sortedness / partition properties over all inputs - they quantify over values.
 """
 
